@@ -49,11 +49,15 @@ pub struct Config {
     /// harness uses this to put simulated threads on stacks whose addresses it decides); with a
     /// wrapper the OS thread itself only needs a small stack
     pub thread_wrap: Option<fn(usize, &mut dyn FnMut())>,
+    /// atomic-granular tier (instrumented build only): at every atomic operation of instrumented
+    /// code a simulated thread offers the baton with probability `atomic_rate`/256 (0 = never:
+    /// job-granular scheduling, the default)
+    pub atomic_rate: u16,
 }
 
 impl Default for Config {
     fn default() -> Self {
-        Config { workers: 1, strategy: Strategy::Sequential, seed: 0, replay: None, step_budget: 5_000_000, stack: 64 << 20, pct_horizon: 400, thread_start: None, thread_wrap: None }
+        Config { workers: 1, strategy: Strategy::Sequential, seed: 0, replay: None, step_budget: 5_000_000, stack: 64 << 20, pct_horizon: 400, thread_start: None, thread_wrap: None, atomic_rate: 0 }
     }
 }
 
@@ -84,6 +88,11 @@ pub struct Stats {
     pub max_deque: u64,
     pub workers_started: u64,
     pub workers_that_ran_jobs: u64,
+    /// atomic operations of instrumented code seen on simulated threads / those at which another
+    /// action was enabled and the baton was offered / futex waits turned into yields
+    pub atomic_ops: u64,
+    pub atomic_points: u64,
+    pub blocked_points: u64,
 }
 
 #[derive(Clone, Debug, Default)]
@@ -230,6 +239,10 @@ enum St {
     Absent,
     Running,
     AtPoint,
+    /// would block in the kernel on a lock / condition another simulated thread must release
+    /// (futex wait turned into a yield): resumed only when nothing else can move, or by choice
+    /// among the others once something has moved
+    Spin,
     /// waiting on a latch; `can_work` = a worker that may pop / steal / take injected meanwhile
     Wait(LatchPtr, bool),
     Idle,
@@ -269,6 +282,9 @@ struct Act {
 struct Sim {
     cfg: Config,
     rng: Rng,
+    /// separate stream for "is this atomic operation a scheduling point" (so that a replay, which
+    /// draws nothing for its choices, meets the same points)
+    arng: Rng,
     n: usize,
     workers_started: bool,
     deques: Vec<VecDeque<JobRef>>,
@@ -294,6 +310,9 @@ const CV_INIT: Condvar = Condvar::new();
 static CVS: [Condvar; MAX_THREADS] = [CV_INIT; MAX_THREADS];
 static CV_SPAWN: Condvar = Condvar::new();
 static ACTIVE: AtomicBool = AtomicBool::new(false);
+/// mirror of `Sim::turn` / "atomic points are on" readable without the simulator lock
+static TURN: std::sync::atomic::AtomicUsize = std::sync::atomic::AtomicUsize::new(usize::MAX);
+static ATOMIC_ON: AtomicBool = AtomicBool::new(false);
 
 thread_local! {
     /// simulated thread id of the current OS thread (None: not part of a simulation)
@@ -346,6 +365,7 @@ impl Sim {
                 acts.push(Act { kind: 0, t, v: 0 });
             }
         }
+        let non_spin = acts.len();
         // 2. wake
         for t in all.clone() {
             if let St::Wait(l, _) = self.status[t] {
@@ -382,6 +402,15 @@ impl Sim {
                     if can_work(&self.status[w]) && self.deques[w].is_empty() {
                         acts.push(Act { kind: 4, t: w, v: 0 });
                     }
+                }
+            }
+        }
+        // 1b. a thread spinning on a lock is resumed only if no thread at a point could move
+        // instead (the holder of the lock is one of those), so that a spinner can never starve it
+        if non_spin == 0 {
+            for t in 0..MAX_THREADS {
+                if matches!(self.status[t], St::Spin) {
+                    acts.push(Act { kind: 0, t, v: 0 });
                 }
             }
         }
@@ -504,6 +533,7 @@ impl Sim {
         self.status[a.t] = St::Running;
         self.assign[a.t] = Some(asg);
         self.turn = a.t;
+        TURN.store(a.t, Ordering::SeqCst);
     }
 }
 
@@ -567,6 +597,80 @@ pub(crate) fn push_and_point(me: usize, job: JobRef, kind: PushKind) {
         Assignment::Resume => {}
         _ => unreachable!("sim invariant: a thread at a point can only be resumed"),
     }
+}
+
+/// Is the calling OS thread the simulated thread that currently holds the baton, in a run with
+/// atomic points switched on?  (lock-free: used on the way into the kernel)
+pub fn is_baton_holder() -> bool {
+    if !ATOMIC_ON.load(Ordering::Relaxed) {
+        return false;
+    }
+    match current_tid() {
+        Some(me) => TURN.load(Ordering::SeqCst) == me,
+        None => false,
+    }
+}
+
+/// Does `addr` lie inside the simulator's own synchronisation objects (its futex words must
+/// really block)?
+pub fn owns_address(addr: usize) -> bool {
+    let inside = |p: usize, n: usize| addr >= p && addr < p + n;
+    inside(&SIM as *const _ as usize, std::mem::size_of_val(&SIM))
+        || inside(&CVS as *const _ as usize, std::mem::size_of_val(&CVS))
+        || inside(&CV_SPAWN as *const _ as usize, std::mem::size_of_val(&CV_SPAWN))
+        || inside(&HANDLES as *const _ as usize, std::mem::size_of_val(&HANDLES))
+}
+
+/// Atomic-granular tier: called (through the instrumentation runtime of the harness) before every
+/// atomic operation of instrumented code.  On a simulated thread of a run with `atomic_rate > 0`
+/// this is a scheduling point inside a job: if some other action is enabled, the baton is
+/// offered with the configured probability.
+pub fn preempt_point() {
+    let Some(me) = current_tid() else { return };
+    let mut g = lock();
+    {
+        let Some(sim) = g.as_mut() else { return };
+        if sim.cfg.atomic_rate == 0 || !matches!(sim.status[me], St::Running) || sim.turn != me {
+            return;
+        }
+        sim.stats.atomic_ops += 1;
+        if (sim.arng.next() & 0xff) >= sim.cfg.atomic_rate as u64 {
+            return;
+        }
+        // is there anything else that could move?  (otherwise nothing is logged)
+        sim.status[me] = St::AtPoint;
+        sim.enabled();
+        sim.status[me] = St::Running;
+        if sim.scratch.len() <= 1 {
+            return;
+        }
+        sim.stats.atomic_points += 1;
+    }
+    match yield_with(me, g, St::AtPoint) {
+        Assignment::Resume => {}
+        _ => unreachable!("sim invariant: a thread at a point can only be resumed"),
+    }
+}
+
+/// Atomic-granular tier: the current simulated thread is about to block in the kernel (futex
+/// wait) on something only another simulated thread can release.  It yields instead; the caller
+/// returns to its retry loop.  Returns false if the thread is not part of a simulation (the
+/// caller must then really block).
+pub fn blocked_point() -> bool {
+    let Some(me) = current_tid() else { return false };
+    let mut g = lock();
+    {
+        let Some(sim) = g.as_mut() else { return false };
+        if sim.cfg.atomic_rate == 0 || !matches!(sim.status[me], St::Running) || sim.turn != me {
+            return false;
+        }
+        sim.stats.blocked_points += 1;
+    }
+    match yield_with(me, g, St::Spin) {
+        Assignment::Resume => {}
+        _ => unreachable!("sim invariant: a spinning thread can only be resumed"),
+    }
+    true
 }
 
 pub(crate) enum PushKind {
@@ -741,6 +845,7 @@ pub fn run_multi<R: Send, F: FnOnce() -> R + Send>(cfg: Config, fs: Vec<F>) -> (
     let hook = cfg.thread_start;
     let wrap = cfg.thread_wrap;
     let mut rng = Rng(cfg.seed ^ 0x5DEECE66D);
+    let arng = Rng(cfg.seed ^ 0xA70_31C_5EED);
     let mut prio = [0u32; MAX_THREADS];
     for p in prio.iter_mut() {
         *p = 1000 + (rng.next() % 1_000_000) as u32;
@@ -760,8 +865,11 @@ pub fn run_multi<R: Send, F: FnOnce() -> R + Send>(cfg: Config, fs: Vec<F>) -> (
             status[EXT_BASE + x] = St::AtPoint;
         }
     }
+    ATOMIC_ON.store(cfg.atomic_rate > 0, Ordering::SeqCst);
+    TURN.store(EXT_BASE, Ordering::SeqCst);
     *lock() = Some(Sim {
         cfg,
+        arng,
         rng,
         n,
         workers_started: false,
@@ -856,6 +964,7 @@ pub fn run_multi<R: Send, F: FnOnce() -> R + Send>(cfg: Config, fs: Vec<F>) -> (
         let _ = h.join();
     }
     ACTIVE.store(false, Ordering::SeqCst);
+    ATOMIC_ON.store(false, Ordering::SeqCst);
     let sim = lock().take().unwrap();
     let report = Report { decisions: sim.log, stats: sim.stats, error: sim.error };
     (results, report)
